@@ -16,6 +16,7 @@
   the hypothesis `Reader.Lawful`; the e2e correspondence samples that hypothesis, it does not prove it.
 -/
 import SA.Proofs.Framing
+import SA.Gen.PkgVars
 namespace SA.Framing
 
 /-- a reader layer: `read s n` returns at most … bytes and the next state; `content` = bytes it still owes -/
@@ -405,3 +406,16 @@ end SA.Framing
 #print axioms SA.Framing.C01_debug_copy_is_copy
 #print axioms SA.Framing.C01_log_writer_reports_all
 #print axioms SA.Framing.C01_witness_short_log
+
+namespace SA.PkgState
+/-- **no_hidden_process_state**: the models of this property are functions of their arguments and of the objects they are
+    handed; the packages they model keep no package-level variables besides these (regenerated inventory: error
+    sentinels, tables, compiled patterns, the two session time-outs).  A new package-level variable — a counter, a cache, a
+    scratch buffer, a shared map, a registry — would make later calls depend on earlier ones, or concurrent calls on each
+    other, outside anything a per-call comparison of model and code can see. -/
+theorem C01_no_hidden_process_state :
+    Gen.pkgVarNames_streams = ["Localhost"] ∧
+    Gen.pkgVarNames_server = ["ChannelRegex"] := by decide
+end SA.PkgState
+
+#print axioms SA.PkgState.C01_no_hidden_process_state
